@@ -15,10 +15,10 @@ func init() {
 	register(&propertyDef{
 		id:    "C07",
 		title: "run-time failures surface as errors, never as a crash",
-		rules: []ruleFunc{c07R1, c07R2, c07R3, c07R4, c07R5},
+		rules: []ruleFunc{c07R1, c07R2, c07R3, c07R4, c07R5, c07R6},
 		decided: "no explicit panic is reachable in the run path except tabled internal invariants, some of which are discharged by checking their static reason (R1); " +
 			"every unchecked type assertion in the run path is justified by a dominating validation or by construction (R2); the error of expression resolution in the notify loop is routed to the error report, cancel and return (R3); " +
-			"(thorough) integer division/remainder in the expression evaluator is guarded by a zero test (R4); values tested for absence are not dereferenced on the failing branch (R5).",
+			"(thorough) integer division/remainder in the expression evaluator is guarded by a zero test (R4); values tested for absence are not dereferenced on the failing branch (R5). Shared: variables shared with goroutines are written under a lock — concurrent map writes abort the process (R6 = C17.R2).",
 		notDecided: "panics inside deployers, the ATP client, dgraph or pluginsdk; implicit panics (nil map writes, index out of range) other than those listed; memory exhaustion.",
 	})
 }
